@@ -18,6 +18,7 @@ from fractions import Fraction
 from pqv.core import VERIF, REPO
 
 THEOREMS = ["Pq.C11.fresh_simulator_draws", "Pq.C11.same_seed_same_samples", "Pq.C11.different_seed_different_stream",
+            "Pq.C11.reseed_replays", "Pq.C11.reseed_same_seed_same_samples",
             "Pq.C11.jobRanges_partition", "Pq.C11.jobRanges_zero_threads", "Pq.C11.grayOf_injective", "Pq.C11.gray_adjacent",
             "Pq.C11.next_eq_init", "Pq.C11.runJob_eq_sum", "Pq.C11.permanent_threads_independent",
             "Pq.C11.permanent_zero_threads"]
@@ -95,7 +96,11 @@ def ownership(ctx, n_seq):
                 op = f"exec:{s}:{k}:{int(simpy[s])}"
                 # unshuffled sample multiset in branch order
                 outs.append(sorted((tuple(int(x) for x in b.outcome), int(b.frequency * k)) for b in res.branches) if simpy[s] else "np")
-            elif r < 0.9:
+            elif r < 0.86:
+                # seeding by assignment: the setter rebinds THIS config object to two new generators
+                c = rng.randrange(len(cfgs)); seed = rng.choice([0, 1, 5, 7, 12345])
+                cfgs[c].seed_sequence = seed; op = f"reseed:{c}:{seed}"; outs.append(None)
+            elif r < 0.93:
                 n = rng.randint(1, 4)
                 for _ in range(n):
                     random.random()
@@ -229,12 +234,29 @@ def real_seeding(ctx, shots):
                     other.execute(po, shots=3)
                     sim.config.copy()
                 return canon_samples(sim.execute(p, shots=shots).samples)
+            def run_assigned(via_sim, seed=seed):
+                # the seed is set by assignment (`config.seed_sequence = seed`), on the user's config before the simulator is
+                # created or on the simulator's own config afterwards
+                sim, p = build(None)
+                if via_sim:
+                    sim.config.seed_sequence = seed
+                else:
+                    cfg = sim.config.copy(); cfg.seed_sequence = seed
+                    sim = type(sim)(d=3, config=cfg)
+                return canon_samples(sim.execute(p, shots=shots).samples)
             try:
                 a, b, c = run(False), run(True), run(False)
+                e1, e2, e3 = run_assigned(False), run_assigned(True), run_assigned(False)
             except Exception as e:
                 fails.append((f"seeding-raise:{name}", f"{name}: {type(e).__name__}: {str(e)[:120]}", {"path": name, "seed": seed}))
                 break
             ctx.count(("seeding", name, seed), nontrivial=True)
+            if not (e1 == e2 == e3):
+                fails.append((f"seeding-assigned:{name}", f"{name}: fresh simulators whose seed {seed} was set by assigning config.seed_sequence gave different samples",
+                              {"path": name, "seed": seed, "config_assigned": e1[:5], "simulator_config_assigned": e2[:5], "config_assigned_again": e3[:5]}))
+            elif e1 != a:
+                fails.append((f"seeding-assigned-vs-constructor:{name}", f"{name}: seed {seed} set by assignment gives other samples than the same seed passed to Config(...)",
+                              {"path": name, "seed": seed, "constructor": a[:5], "assigned": e1[:5]}))
             if a != c:
                 fails.append((f"seeding-repeat:{name}", f"{name}: two fresh simulators with seed {seed} gave different samples", {"path": name, "seed": seed, "first": a[:5], "second": c[:5]}))
             if a != b:
